@@ -264,3 +264,6 @@ def run(ctx):
     from rules import c13
     ctx.rule("C02.g", "the kernel refuses an integer dtype together with float weights before allocating", 1)
     c13.check_int_float_refusal(ctx, "C02.g", m, "calculate_nd_frequencies")
+
+    ctx.rule("C02.h", "HistogramND.__init__ stores the given missed weight unmodified", 1)
+    c13.check_missed_alloc(ctx, "C02.h", m)
